@@ -65,6 +65,11 @@ pub mod storage;
 pub fn unix_ms() -> u64 {
     use std::time::{SystemTime, UNIX_EPOCH};
 
+    #[cfg(feature = "verif")]
+    if let Some(now_ms) = anda_db_utils::verif::now_ms() {
+        return now_ms;
+    }
+
     match SystemTime::now().duration_since(UNIX_EPOCH) {
         Ok(ts) => ts.as_millis() as u64,
         Err(err) => {
